@@ -1331,7 +1331,9 @@ class LiteralValue:
         self.value = value
 
     def promote(self):
-        return self.parents[0]
+        # A type of its own: the parent listed on the class is one object for the whole process,
+        # and what an analysis learns about a value (attributes) is stored on its type
+        return self.parents[0].clone()
 
     def clone(self):
         return self.__class__(self.value)
